@@ -406,6 +406,8 @@ def decide(pid, tier, seed, replay, t0):
         tr_status = translate.main()
         import translate_obj
         tr_status.update(translate_obj.main())
+        import translate_obj2
+        tr_status.update(translate_obj2.main())
         mod = importlib.import_module("props." + pid.lower())
         prop_modules = [m for m in mod.LEAN_MODULES
                         if os.path.exists(os.path.join(LEAN, m.replace(".", "/") + ".lean"))]
